@@ -243,6 +243,7 @@ func RunC09(env *Env, rep *Report) {
 			}
 		}
 	}
+	cases = append(cases, c09PairCase("", "braille"), c09PairCase("braille", ""), c09PairCase("", "custom"), c09PairCase("ascii", "custom"))
 	rep.Technique = "symbolic execution of the real text parsing, terminator logic and text emission (go/ssa) with symbolic string contents; 'already terminated' decided by the SMT string theory (z3 seq)"
 	rep.Explanation = "Bounded symbolic verification, not a proof. Texts of up to the stated number of source lines (adjacent string literals), each line an arbitrary printable-ASCII string without a double quote (an SMT String variable), with no type prefix, ascii, braille and a symbolic custom type, coming from a text statement, an inline command argument and a poryswitch text case (selected and '_' fallback), are compiled by symbolic execution of the real code. strings.HasSuffix on the symbolic content is a solver-decided fork, so both 'already ends with the terminator' and 'does not' are covered for all contents. Asserted per path: the label is defined once; one directive per source line in order; directive = the type or 'string'; the lines are the source lines with exactly the terminator the type calls for appended to the last one unless the text already ends with it."
 	rep.Bounds = map[string]interface{}{"max_source_lines": maxLines, "types": []string{"(none)", "ascii", "braille", "custom (symbolic identifier)"}, "origins": []string{"text statement", "inline argument", "poryswitch text case selected", "poryswitch '_' fallback"}, "cases": len(cases)}
@@ -273,4 +274,63 @@ func kindOf(k *KnownFinding) string {
 	}
 	jsonUnmarshal(k.Match, &m)
 	return m.Kind
+}
+
+// c09PairCase: two inline texts with the SAME symbolic content and different
+// type prefixes: each must be emitted under its own label with its own
+// directive and terminator.
+func c09PairCase(t1, t2 string) *Case {
+	atoms := &AtomTable{Coded: true}
+	sname := atoms.New(ClsUserName, "script", "names")
+	c1 := atoms.New(ClsPlainCmd, "cmd", "cmds")
+	c2 := atoms.New(ClsPlainCmd, "cmd", "cmds")
+	content := atoms.New(ClsLine, "txt", "")
+	var custom *Atom
+	spell := func(t string) (string, func() interp.Value) {
+		if t == "custom" {
+			if custom == nil {
+				custom = atoms.New(ClsIdent, "strtype", "", "ascii", "braille")
+			}
+			return custom.Placeholder(), func() interp.Value { return custom.Val }
+		}
+		return t, func() interp.Value { return t }
+	}
+	s1, v1 := spell(t1)
+	s2, v2 := spell(t2)
+	src := fmt.Sprintf("script %s {\n  %s(%s\"%s\")\n  %s(%s\"%s\")\n}", sname.Placeholder(), c1.Placeholder(), s1, content.Placeholder(), c2.Placeholder(), s2, content.Placeholder())
+	prog := &Program{Atoms: atoms, Tops: []interface{}{&TopRaw{Text: src}}}
+	cs := &Case{Name: fmt.Sprintf("c09/inline-pair/%s/%s", t1, t2), Prog: prog, Variants: optVariants[:1], NonTrivial: true, Shape: c09Shape{Origin: "inline-pair", Type: t1 + "+" + t2, Lines: 1}, MaxPaths: 64}
+	cs.Oracle = func(x *OracleCtx) *Violation {
+		res := x.Res["opt"]
+		if res.Err.IsErr || res.Err.Panic != "" {
+			return &Violation{Sub: "accept", Msg: "rejected: " + interp.ToString(res.Err.Msg) + res.Err.Panic}
+		}
+		lines := nonBlank(outputLines(res.Out, false))
+		// the two command lines name the labels
+		var lbls []interp.Value
+		for _, c := range []*Atom{c1, c2} {
+			for _, l := range lines {
+				if rest, ok := trimPrefixLit(l, "\t"); ok {
+					if a, b, ok := splitFirst(rest, " "); ok && sameValue(x.C, a, c.Val) == 1 {
+						lbls = append(lbls, b)
+					}
+				}
+			}
+		}
+		if len(lbls) != 2 {
+			return &Violation{Sub: "text", Msg: "the two commands do not both carry a label"}
+		}
+		for i, tv := range []func() interp.Value{v1, v2} {
+			want := c09Expect(x, tv(), []interp.Value{content.Val})
+			got, n := sectionAfterLabel(x, res.Out, lbls[i])
+			if n != 1 {
+				return &Violation{Sub: "label", Msg: fmt.Sprintf("label %s of text %d is defined %d times", interp.ToString(lbls[i]), i+1, n)}
+			}
+			if v := expectLines(x, "text", fmt.Sprintf("text %d (type %q)", i+1, []string{t1, t2}[i]), got, want); v != nil {
+				return v
+			}
+		}
+		return nil
+	}
+	return cs
 }
